@@ -166,6 +166,16 @@ def value_level(run, tier, nprng, walk, torch_too=False, prop="C02"):
         for st in ("centered", "causal"):
             for pad in (False, True):
                 combos.append((16000, "fbank40_short", lambda: filters.Fbank(num_filts=40, sampling_rate=16000), L, S, st, pad))
+    # banks whose truncated responses BEGIN with a weight of exactly zero (a triangle's foot on a DFT bin: 500 Hz vertices on a
+    # 256-point DFT at 8 kHz; any bank starting at 0 Hz): the stored response is used as handed over, zeros and all
+    for st in ("centered", "causal"):
+        for pad in (False, True):
+            combos.append((8000, "tri_linear_vertices_on_bins", lambda: filters.TriangularOverlappingFilterBank(
+                {"name": "linear", "low_hz": 0.0}, num_filts=7, sampling_rate=8000, low_hz=0.0, high_hz=4000.0), 200, 80, st, pad))
+            combos.append((8000, "tri_mel_from_0hz", lambda: filters.TriangularOverlappingFilterBank(
+                "mel", num_filts=4, sampling_rate=8000, low_hz=0.0), 201, 67, st, pad))
+            combos.append((8000, "fbank_analytic_from_0hz", lambda: filters.Fbank(num_filts=4, sampling_rate=8000, low_hz=0.0, analytic=True),
+                           200, 80, st, pad))
     run.extra["value_level_configs"] = len(combos)
     # all frames needed, exported by TLC in one go
     plan = []
